@@ -33,6 +33,18 @@ pub enum EncodingError {
     #[error("Invalid page size: {0}")]
     InvalidPageSize(usize),
 
+    #[error(
+        "CKey entry with {key_count} encoding keys ({entry_size} bytes) does not fit a page of {page_size} bytes"
+    )]
+    EntryTooLarge {
+        /// Number of encoding keys of the entry
+        key_count: usize,
+        /// Serialized size of the entry
+        entry_size: usize,
+        /// Size of a CKey page
+        page_size: usize,
+    },
+
     #[error("Invalid key size: expected {expected}, got {actual}")]
     InvalidKeySize { expected: usize, actual: usize },
 
